@@ -26,6 +26,7 @@ MODS = {
     "channel": "channel",
     "aes_rng": "crypto::aes_rng",
     "aes_hash": "crypto::aes_hash",
+    "avx2": "transpose::avx2",
     "fpre": "mpc::fpre",
     "file_or_mem_buf": "utils::file_or_mem_buf",
 }
@@ -76,7 +77,7 @@ for v, t, to in (("regs01", "quick", 1200), ("regs11", "quick", 900), ("regs10",
       what="output opening at an output party: Ok(bits) => every peer output share present, MAC verified under own key/delta, bit == value ^ own share ^ peer share, one bit per output position",
       bounds=f"n=2, max_reg_count=2, output registers {v[-2]},{v[-1]} (duplicates / unsorted covered by the variants), all shares/MACs/keys/delta symbolic 128-bit, peer Option pattern free",
       functions=["mpc::protocol::output (tail segment)"], panic_prop="C08")
-H("protocol", "c02_output_tail_n3", timeout=1200, needs_segment=["output_tail"],
+H("protocol", "c02_output_tail_n3", timeout=1200, est_gb=7, needs_segment=["output_tail"],
   what="output opening with two peers: Ok => both peers' shares present + MAC-verified for every output register; bit == value ^ all mask shares", bounds="n=3, own index 0, output registers (1,0), all values symbolic", functions=["mpc::protocol::output (tail segment)"], panic_prop="C08")
 H("protocol", "c03_ip_mid_n3", needs_segment=["ip_mid"],
   what="input sharing with two peers: Ok => both peers' mask shares present + MAC-verified; masked == input ^ all mask shares", bounds="n=3, own index 0, one own input wire", functions=["mpc::protocol::input_processing (segment between scatter and broadcast)"], panic_prop="C08")
@@ -110,14 +111,14 @@ H("protocol", "c01_free_xor_evaluator_labels", needs_segment=["evaluate_loop"],
 H("protocol", "c01_free_not_evaluator_labels", needs_segment=["evaluate_loop"],
   what="evaluator loop, Input/Input/NOT with register reuse: NOT flips the masked value and keeps the active label", bounds="n=2, 3 instructions", functions=["mpc::protocol::evaluate (loop segment)"], panic_prop="C01")
 for row in (0, 1, 2, 3):
-    H("protocol", f"c01_and_gate_full_n3_row{row}", tier="thorough", timeout=2400, mem_gb=30, needs_segment=["garbler_rows", "evaluator_rows", "garbler_row_labels", "evaluate_and_arm_n3"],
+    H("protocol", f"c01_and_gate_full_n3_row{row}", tier="thorough", timeout=2400, mem_gb=30, est_gb=13, needs_segment=["garbler_rows", "evaluator_rows", "garbler_row_labels", "evaluate_and_arm_n3"],
       what="one AND gate end to end for n=3 (two garblers, evaluator): rows + row labels + the evaluator's AND arm composed: honest rows are accepted, the evaluator obtains the masked AND value and label0 ^ value*delta for both garblers",
       bounds=f"n=3, selected row {row}, all bits/keys/global keys/labels symbolic 128-bit (MAC relation and AND relation assumed)", functions=["mpc::protocol::garble (row construction, labels)", "mpc::protocol::evaluate (AND arm)"], panic_prop="C01", stubs=["garble::decrypt -> returns the plaintexts of the garblers' rows"])
 for k, b_, tier, to in ((4, 2, "quick", 600), (5, 2, "thorough", 600), (3, 1, "thorough", 600), (4, 3, "quick", 600), (3, 2, "quick", 600)):
     H("protocol", f"c01_init_and_shares_chunks_k{k}_b{b_}", tier=tier, timeout=to, needs_segment=["init_and_shares_loop"],
       what="init_and_shares(): chunks written for gen_auth_bits == chunk_size_iter(and_ops, batch)", bounds=f"{k} AND gates, batch size {b_} (live-in of the cut loop)", functions=["mpc::protocol::init_and_shares (loop segment)", "mpc::protocol::chunk_size_iter"], panic_prop="C01", stubs=["FileOrMemBuf::write_chunk -> log of chunk lengths (textual substitution)"])
 for k, b_, tier, to in ((3, 2, "quick", 1500), (4, 2, "thorough", 2400), (3, 1, "thorough", 1500), (5, 2, "thorough", 3000), (4, 3, "thorough", 2400)):
-    H("protocol", f"c01_garbler_chunks_k{k}_b{b_}", tier=tier, timeout=to, needs_segment=["garbler_loop"],
+    H("protocol", f"c01_garbler_chunks_k{k}_b{b_}", tier=tier, timeout=to, est_gb=12, needs_segment=["garbler_loop"],
       what="garble() garbler side: gate chunks sent to the evaluator == chunk_size_iter(and_ops, batch) (what the evaluator's receive loop expects)", bounds=f"{k} AND gates, batch size {b_} (live-in of the cut loop)", functions=["mpc::protocol::garble (garbler loop segment)", "mpc::protocol::chunk_size_iter"], panic_prop="C01", stubs=["send_to(..'preprocessed gates'..).await -> log of chunk lengths", "garble::encrypt -> Ok(empty)", "rand::random -> 0"])
 
 H("protocol", "c05_output_share_msg_n3", needs_segment=["output_share_msg"],
@@ -164,8 +165,8 @@ for n, t, to, mem in ((2, "quick", 900, 20), (3, "quick", 900, 20), (4, "quick",
 H("data_types", "c10_auth_helpers_n3", what="xor_keys == XOR of keys; macs() in order; xor_key(i,d) changes exactly key i", bounds="n=3, i in 0..=3", functions=["Auth::xor_keys", "Auth::macs", "Auth::xor_key"], panic_prop="C10")
 H("data_types", "c10_typed_ops", what="typed XOR/AND operators and the MAC-check expression mac != key ^ (bit & delta)", bounds="full width", functions=["data_types operator impls"], panic_prop="C10")
 H("faand", "c10_bucket_size_table", what="bucket_size == 5 below 3100, 4 from 3100, 3 from 280000", bounds="all usize", functions=["mpc::faand::bucket_size"], panic_prop="C10")
-H("faand", "c10_combine_two_n2", timeout=1200, what="combine_two_leaky_ands as inductive step: valid triple + valid leaky triple + honest d => valid triple with AND relation and y == y1", bounds="n=2, all bits/MACs/keys/deltas symbolic", functions=["mpc::faand::combine_two_leaky_ands"], panic_prop="C10")
-H("faand", "c10_combine_two_n3", tier="thorough", timeout=2400, mem_gb=30, what="same, n=3", bounds="n=3", functions=["mpc::faand::combine_two_leaky_ands"], panic_prop="C10")
+H("faand", "c10_combine_two_n2", timeout=1200, est_gb=7, what="combine_two_leaky_ands as inductive step: valid triple + valid leaky triple + honest d => valid triple with AND relation and y == y1", bounds="n=2, all bits/MACs/keys/deltas symbolic", functions=["mpc::faand::combine_two_leaky_ands"], panic_prop="C10")
+H("faand", "c10_combine_two_n3", tier="thorough", timeout=2400, mem_gb=30, est_gb=14, what="same, n=3", bounds="n=3", functions=["mpc::faand::combine_two_leaky_ands"], panic_prop="C10")
 H("faand", "c10_combine_bucket_fold_b3", what="combine_bucket fold order (d_vec[k-1] with element k); empty bucket => Err", bounds="n=2, bucket of 3", functions=["mpc::faand::combine_bucket", "mpc::faand::combine_two_leaky_ands"], panic_prop="C10")
 for ln, t in ((1, "thorough"), (63, "thorough"), (64, "quick"), (65, "quick"), (127, "thorough"), (128, "quick"), (129, "quick"), (130, "thorough"), (192, "thorough"), (193, "thorough"), (256, "thorough"), (257, "thorough")):
     H("faand", f"c10_chunked_bool_{ln}", tier=t, timeout=1200, what="chunked_update_with_rbits::<bool>: element k visited once, in order, with bit k mod 128 of block k div 128", bounds=f"length {ln}, all element and coefficient bits symbolic", functions=["mpc::faand::chunked_update_with_rbits::<bool>"], panic_prop="C10")
@@ -180,6 +181,9 @@ H("gf128", "c20_clmul128_karatsuba_basis_times_full", what="scalar::clmul128 rec
 H("gf128", "c20_clmul128_karatsuba_windows8", tier="thorough", timeout=3600, what="scalar::clmul128 recombination (clmul64 replaced by its definition) == schoolbook on two arbitrary 8-bit windows at arbitrary positions", bounds="8-bit windows, shifts 0..=120 each", functions=["block::gf128::scalar::clmul128"], panic_prop="C20", stubs=["scalar::clmul64 -> schoolbook definition"])
 H("gf128", "c20_pclmul_clmul128_basis_times_full", sub="pclmul", what="PCLMUL path clmul::clmul128 (instruction replaced by Intel's definition): same basis x full obligation", bounds="all i < 128, all b", functions=["block::gf128::clmul::clmul128"], panic_prop="C20", stubs=["_mm_clmulepi64_si128 -> 64x64 schoolbook of the selected halves"])
 H("gf128", "c20_pclmul_reduce_eq_bitserial", sub="pclmul", what="PCLMUL path clmul::gf128_reduce == bit-serial reduction", bounds="all 2^256 inputs", functions=["block::gf128::clmul::gf128_reduce"], panic_prop="C20", stubs=["_mm_clmulepi64_si128 -> definition"])
+for blk in (0, 1):
+    H("avx2", f"c20_avx2_rest_cols_256x16_block{blk}", tier="thorough", timeout=2400, est_gb=10, needs_segment=["avx2_rest_cols"],
+      what="AVX2 path, rest-column handling: butterfly input row k == input row 128i+k; transposed row k is stored at output row k, byte offset 16i, with the OUTPUT stride", bounds=f"256 x 16 matrix, row block {blk}, fixed distinct byte patterns (addressing only)", functions=["transpose::avx2::handle_rest_cols (whole body)"], panic_prop="C20", stubs=["avx_transpose128x128 -> hands out a chosen transposed square (the butterfly itself is not covered)"])
 H("aes_hash", "c20_cr_hash_structure", needs_segment=["cr_hash_block_body"],
   what="cr_hash_block(x) == pi(x) ^ x with pi (the fixed-key AES permutation) an arbitrary function", bounds="all blocks", functions=["crypto::aes_hash::AesHash::cr_hash_block (whole body)"], panic_prop="C20", stubs=["Aes128::encrypt_block -> arbitrary function on the evaluated points (textual substitution)"])
 H("aes_hash", "c20_tccr_hash_structure", needs_segment=["tccr_hash_block_body"],
@@ -369,13 +373,13 @@ PROPS["C18"] = dict(
 
 PROPS["C20"] = dict(
     level="model_checking",
-    level_text="Bounded/full-width model checking of the GF(2) arithmetic and the portable transposition against their definitions: reduction over all 2^256 inputs on both paths, carry-less multiply on basis x full (complete for a bilinear map) on both paths, portable transpose for every input of the stated shapes.",
-    level_note="Partial: AES hash/PRG equal to AES-128 definitions NOT covered (symbolic AES); AVX2 butterfly not covered; transposition only shapes 16x16 (+16x24, 32x16 thorough). SIMD instruction replaced by Intel's definition.",
+    level_text="Full-width / bounded model checking of the GF(2) arithmetic and the portable transposition against their definitions: reduction over all 2^256 inputs on both paths; scalar clmul64 and clmul128 for ALL operands (MIR->SMT: 25 product lemmas on real 128-bit bvmul + bit-level composition, cross-checked by a second solver); carry-less multiply on basis x full on both paths; portable transpose for every input of the stated shapes; the structure of the AES-based hashes with the permutation an arbitrary function.",
+    level_note="Partial: that pi is AES-128 under the fixed key and the AES generator are NOT covered (symbolic AES); the AVX2 butterfly is not covered (only the data movement of its rest-column path, thorough tier); transposition only shapes 16x16 (+16x24, 32x16 thorough). SIMD instructions replaced by Intel's definitions.",
     explanation="Kani/CBMC on block::gf128::{scalar,clmul} and transpose::portable.",
-    outside="transpose shapes 16x16/16x24/32x16; clmul64 full correctness only via basis x full + 16-bit windows (thorough) unless the E2 lemma run is listed.",
+    outside="transpose shapes 16x16/16x24/32x16 (portable), 256x16 rest-column addressing (AVX2, thorough); AES itself; AesRng.",
     assumptions=[FMT, TRACING, "_mm_clmulepi64_si128 and _mm_sll_epi64 replaced by their Intel SDM definitions", "bilinearity of the recombination is a structural (paper) argument: XOR/shift of bilinear products"],
     harnesses=by_prefix("c20_"),
-    segments=["cr_hash_block_body", "tccr_hash_block_body"],
+    segments=["cr_hash_block_body", "tccr_hash_block_body", "avx2_rest_cols"],
     extra=["e2.run:c20_queries"],
     uses_e2=True,
 )
